@@ -14,3 +14,6 @@ def run(chk, replay):
     c01.run_mode(chk, None, "iter")
     # stream.iter(bsel) for slice / list / mask selections (requested order)
     c01.run_mode(chk, None, "read")
+    # code -> spec: level iteration and iter() recorded on large generated plotfiles and the assets (Reader!IterSpec in OpTrace.tla)
+    from harness import optrace
+    optrace.phase(chk, ["iter", "iter", "read"], "level iteration on large inputs", 60, 600, assets=["example_plt_3d", "example_plt_2d"], nops=6)
